@@ -28,7 +28,8 @@ def run(cx):
                  ("R07d", "reports are assembled in dependency order from already built component graphs"),
                  ("R07e", "graph searches over builds / commits prune by membership only, never by ordering of allocation ids"),
                  ("R07f", "every build number of a build commit resolves to its report build (what parent repositories look pins up in)"),
-                 ("R07g", "a build keeps the component state of EVERY relevant component (the baseline of later builds), unfiltered")):
+                 ("R07g", "a build keeps the component state of EVERY relevant component (the baseline of later builds), unfiltered"),
+                 ("R07h", "the walk over the component builds of a bump is pruned at the already shipped builds, never ended by them")):
         cx.rule(r, t)
     init = cx.func(REL, "ReposCollection.__init__", "R07a")
     mrd = cx.func(REL, "ReposCollection.make_reports_data", "R07d")
@@ -133,6 +134,7 @@ def run(cx):
     cx.guard(_r07e, cx, repo)
     cx.guard(_r07f, cx, repo)
     cx.guard(_r07g, cx, repo)
+    cx.guard(_r07h, cx, repo)
 
 
 CONTROL = """
@@ -267,3 +269,30 @@ def _r07g(cx, repo):
     rets = [r for r in walk_local(bi) if isinstance(r, ast.Return)]
     ok = len(rets) == 1 and norm(rets[0].value) == "components_bumps"
     cx.ob("R07g", rets[0] if rets else bi, ok, "the complete map is returned" if ok else "the returned map is not the one that was filled")
+
+
+def _r07h(cx, repo):
+    """ComponentBump.get_rbuilds_in_bump collects the component builds between the newly pinned build and the builds that
+    were shipped before (`from_rbuilds`).  On a merged component history the search has several pending branches: reaching a
+    shipped build must prune that branch only.  Structural necessary condition: no exit of a search loop of the function (loop
+    condition, break, return inside the loop) depends on membership in the shipped set."""
+    f = cx.func(REL, "ComponentBump.get_rbuilds_in_bump", "R07h")
+    loops = [l for l in walk_local(f) if isinstance(l, (ast.While, ast.For))]
+    cx.need(loops, "R07h", f, "search loop")
+    tests = [t for t in walk_local(f) if isinstance(t, ast.Compare) and any(isinstance(x, ast.Attribute) and x.attr == "from_rbuilds" for x in ast.walk(t))]
+    cx.need(tests, "R07h", f, "test against the builds shipped before (from_rbuilds)")
+    n = 0
+    for l in loops:
+        if isinstance(l, ast.While):
+            n += 1
+            bad = [c for c in ast.walk(l.test) if isinstance(c, ast.Attribute) and c.attr == "from_rbuilds"]
+            cx.ob("R07h", l, not bad, "the search runs until nothing is pending" if not bad else
+                  f"the loop condition `{norm(l.test)[:70]}` ends the whole search at the first already shipped build: builds on the other pending branches of a merged component history "
+                  "are never visited (they are recorded at no parent build)", stmt="search loop condition")
+        for x in ast.walk(l):
+            if isinstance(x, (ast.Break, ast.Return)) and enclosing_loops(x) and (enclosing_loops(x)[0] is l or isinstance(x, ast.Return)):
+                fs = [e for e, pol in facts(x, stop=l) if any(isinstance(y, ast.Attribute) and y.attr == "from_rbuilds" for y in ast.walk(e))]
+                n += 1
+                cx.ob("R07h", x, not fs, "exit of the search does not depend on the shipped builds" if not fs else
+                      f"`{norm(x)}` under `{norm(fs[0])[:60]}` ends the search at an already shipped build instead of skipping it", stmt=f"search exit {norm(x)[:30]}")
+    cx.counts["R07h:search exits examined"] = n
